@@ -129,6 +129,60 @@ pub fn replay(input: &str, output: &str) {
     out.finish();
 }
 
+/// B1 for C02: the exact pose of every generic lattice configuration is solved by plain `inverse`; the
+/// configuration, its wrist twin, duplicate freedom and an even count are demanded.
+pub fn replay_ik(input: &str, output: &str) {
+    quiet_panics();
+    let lines = read_ndjson(input);
+    let mut out = Out::create(output);
+    let mut r = rng(202);
+    let mut evals = 0u64;
+    let mut nontrivial = 0u64;
+    let two_pi = 2.0 * std::f64::consts::PI;
+    let close = |a: f64, b: f64| { let d = (a - b).rem_euclid(two_pi); d.min(two_pi - d) < 1e-6 };
+    for (id, line) in lines.iter().enumerate() {
+        let e = ivec(&line["e"]);
+        let mut p = lattice_params(&line["p"]);
+        let class = if id % 3 == 0 { "plain" } else if id % 3 == 1 { "signs+quarter-offsets" } else { "signs+random-offsets" };
+        if id % 3 != 0 { p = robots::convention(p, (id * 7) % 64, if id % 3 == 1 { "quarter" } else { "random" }, &mut r); }
+        let q = joints_for(&p, &e, &[0; 6]);
+        let m = crate::solver::margins(&p, &q);
+        if !crate::solver::nonsingular(&m) { continue; }
+        nontrivial += 1;
+        let pose = lattice::iso(&line["links"][5], UNIT_M).to_na();
+        let robot = OPWKinematics::new(p);
+        let Some(sols) = guarded(|| robot.inverse(&pose)) else { out.put(json!({"sig": "latticeik:panic", "detail": format!("e={:?}", e)})); continue; };
+        evals += 1;
+        let ctx = json!({"params": robots::params_json(&p), "q": q, "e": e, "answers": sols.len()});
+        if !sols.iter().any(|s| (0..6).all(|j| close(s[j], q[j]))) {
+            out.put(json!({"sig": format!("latticeik:originating-configuration-missing:{}", class), "detail": ctx.to_string(), "data": ctx}));
+        }
+        let shift5 = 2.0 * p.sign_corrections[4] as f64 * p.offsets[4];
+        for s in &sols {
+            let twin = [s[0], s[1], s[2], s[3] + std::f64::consts::PI, shift5 - s[4], s[5] - std::f64::consts::PI];
+            if !sols.iter().any(|t| (0..6).all(|j| close(t[j], twin[j]))) {
+                out.put(json!({"sig": format!("latticeik:wrist-twin-missing:{}", class), "detail": ctx.to_string(), "data": ctx}));
+                break;
+            }
+        }
+        for a in 0..sols.len() { for b in (a + 1)..sols.len() {
+            if (0..6).all(|j| close(sols[a][j], sols[b][j])) { out.put(json!({"sig": format!("latticeik:duplicate-answers:{}", class), "detail": ctx.to_string(), "data": ctx})); }
+        } }
+        if sols.len() % 2 == 1 || sols.len() > 8 { out.put(json!({"sig": format!("latticeik:odd-or-too-many-answers:{}", class), "detail": ctx.to_string(), "data": ctx})); }
+        // every answer reproduces the exact pose (independent chain)
+        let want = lattice::iso(&line["links"][5], UNIT_M);
+        for s in &sols {
+            let b = oracle::fk(&p, s);
+            if b.dpos(&want) > 1.001e-6 || b.drot(&want) > 1.001e-6 {
+                out.put(json!({"sig": format!("latticeik:answer-misses-exact-pose:{}", class), "detail": ctx.to_string(), "data": ctx}));
+                break;
+            }
+        }
+    }
+    out.put(json!({"stats": {"lines": lines.len(), "evaluations": evals, "nontrivial": nontrivial}}));
+    out.finish();
+}
+
 /// B3: random real robots and joint vectors; events carry oracle facts (errors in nm / nrad) judged by
 /// Trace_Chain.
 pub fn record(output: &str) {
